@@ -1071,6 +1071,12 @@ func (e *env) catchUp(why string) {
 					map[string]any{"reader": r.describe(), "files": e.listFiles()})
 				return
 			}
+			if r.isAof && e.stalledBehindFreshReader(r) {
+				e.violate(fmt.Sprintf("ii-live|%s|stalled-while-a-fresh-reader-delivers|aof", e.be()),
+					fmt.Sprintf("(ii) a reader that was not closed and not invalidated stopped at offset %d of %d and stayed there while a second reader opened at that very offset delivered the bytes it owes (%s)", r.start+r.rc.Pos(), f.right, why),
+					map[string]any{"reader": r.describe(), "files": e.listFiles(), "model": fmt.Sprintf("%+v", f)})
+				return
+			}
 			e.inconclusive("watchdog: %s delivered %d of %d bytes, still open, no progress (%s)", r.describe(), r.rc.Pos(), want, why)
 			return
 		}
@@ -1087,7 +1093,49 @@ func (e *env) catchUp(why string) {
 	}
 }
 
+// stalledBehindFreshReader decides a reader that made no progress for the whole watchdog period
+// without trusting the clock: a second reader is opened at the very offset the first one stands
+// at.  If that one delivers (verified) bytes while the first still has not moved, the bytes are
+// there and readable on this machine at this load, and the first reader is stuck, not slow.
+func (e *env) stalledBehindFreshReader(r *rdr) bool {
+	rid := e.ch.RunId()
+	pos := r.rc.Pos()
+	next := r.start + pos
+	if r.gen != e.gen.Load() || !e.ch.IsValidOffset(syncer.Offset{RunId: rid, Offset: next}) {
+		return false
+	}
+	fr, err := e.openReader("rd2", rid, next, e.m.ChangeSeq(), e.m.CurID())
+	if err != nil || !fr.isAof {
+		if err == nil {
+			e.closeReader(fr)
+		}
+		return false
+	}
+	fr.probe = true
+	e.startReader(fr)
+	e.waitReader(fr, 1, nil)
+	got := fr.rc.Pos()
+	bad := fr.bad.Load()
+	e.closeReader(fr)
+	e.run.Count("stalled_reader_differential_probes", 1)
+	return got >= 1 && !bad && r.rc.Pos() == pos && !r.term.Load() && r.gen == e.gen.Load()
+}
+
 // ---- sequential histories ----
+
+// belowPowerOfTen: a start offset at most two segments below a power of ten, so that the names
+// of the stream's segment files differ in their number of digits.
+func belowPowerOfTen(rng *rand.Rand, logSize int64) int64 {
+	p := int64(1000)
+	for k := rng.Intn(8); k > 0; k-- {
+		p *= 10
+	}
+	left := p - 1 - rng.Int63n(2*logSize+1)
+	if left < 1 {
+		left = 1
+	}
+	return left
+}
 
 func chunkSize(rng *rand.Rand) int {
 	switch rng.Intn(10) {
@@ -1204,6 +1252,7 @@ func (e *env) sequential() {
 	nSess := 1 + rng.Intn(4)
 	src := e.newID()
 	prevLeft := int64(-1)
+	crossing := false // the current epoch's stream started just below a power of ten
 	for s := 0; s < nSess && !e.stopped(); s++ {
 		ids := []string{src}
 		if s > 0 && rng.Intn(3) == 0 { // the source got a new replication id and remembers the old one
@@ -1219,7 +1268,7 @@ func (e *env) sequential() {
 		}
 		mode := "full"
 		switch n := rng.Intn(100); {
-		case canContinue && n < 50:
+		case canContinue && (n < 50 || (crossing && n < 80)):
 			mode = "continue"
 		case n >= 85:
 			mode = "clear"
@@ -1237,6 +1286,9 @@ func (e *env) sequential() {
 			if prevLeft > 0 && rng.Intn(3) == 0 {
 				left = prevLeft // e.g. an idle source: the next full sync starts at the same offset
 				e.feat("same-left-as-previous-epoch")
+			} else if crossing = rng.Intn(4) == 0; crossing {
+				left = belowPowerOfTen(rng, e.cfg.LogSize)
+				e.feat("stream-crosses-a-power-of-ten")
 			}
 			prevLeft = left
 			size := int64(1 + rng.Intn(int(3*e.cfg.LogSize)))
@@ -1256,6 +1308,17 @@ func (e *env) sequential() {
 			}
 		case "continue":
 			e.setRunId(ids[0])
+			if crossing || rng.Intn(2) == 0 {
+				// a follower is served from the re-opened cache before the new writer exists (the
+				// PSYNC round trip lies in between): everything stored must still be delivered
+				if rd := e.openAt([]string{"left", "mid", "mid"}[rng.Intn(3)], false); rd != nil {
+					e.feat("reader-on-reopened-cache-before-writer")
+					e.catchUp("reader opened on the re-opened cache before the writer")
+					if e.stopped() {
+						continue
+					}
+				}
+			}
 			if e.newAofWriter(sp.Offset, true) == nil {
 				continue
 			}
@@ -1267,6 +1330,9 @@ func (e *env) sequential() {
 			if prevLeft > 0 && rng.Intn(3) == 0 {
 				off = prevLeft
 				e.feat("same-left-as-previous-epoch")
+			} else if crossing = rng.Intn(4) == 0; crossing {
+				off = belowPowerOfTen(rng, e.cfg.LogSize)
+				e.feat("stream-crosses-a-power-of-ten")
 			}
 			prevLeft = off
 			if e.newAofWriter(off, true) == nil {
